@@ -180,6 +180,19 @@ def check_wf(h, label, c, **kw):
     h.check(f"{label}: reported metadata == recomputed from the gate list", not bad, detail=str(bad[:3]))
 
 
+def containers(c):
+    """the mutable containers a circuit owns"""
+    out = [c._gates, c._variational_gates, c._qubit_indices, c._gate_counts, c._n_qubit_gate_counts]
+    for g in c._gates:
+        out += [g, g.target] + ([g.control] if g.control is not None else [])
+    return out
+
+
+def shares_state(a, b):
+    ida = {id(x) for x in containers(a)}
+    return any(id(x) in ida for x in containers(b))
+
+
 def observable(h, c):
     return snapshot({k: v for k, v in c.__dict__.items() if k not in ("_probabilities", "_applied_gates")})
 
@@ -378,14 +391,28 @@ def o3(h, st):
     """after every operation of the history: every circuit produced or modified reports metadata equal to the values recomputed from
     its gate list (WF); every circuit an operation only reads is left unchanged (frame)"""
     c = mk_circuit(build(st["gates"]), st["n"])
+    population = [(c, {})]      # every circuit seen so far stays under the invariant: later operations on OTHER circuits must not disturb it
     for k, op in enumerate(st["ops"]):
         frames_before = None
         snap_c = observable(h, c)
+        others_before = [(x, observable(h, x)) for x, _ in population if x is not c]
         results, reads, ok = apply_op(h, op, c)
         if not ok:
             break
         for r, kw in results:
             check_wf(h, f"step {k} ({op}) result", r, **kw)
+            for x, _ in population:
+                if x is not r:
+                    h.check(f"step {k} ({op}): the result shares no mutable state (lists, sets, dicts, gates) with another circuit", not shares_state(x, r))
+            if all(r is not x for x, _ in population):
+                population.append((r, kw))
+        for x, snap in others_before:
+            h.check(f"step {k} ({op}): circuits not involved are unchanged", observable(h, x) == snap)
+        for x, kw in population:
+            if x is not c or not results or results[0][0] is c:
+                pass
+            if not (op in ("trim_qubits", "reindex_qubits") and x is c):
+                check_wf(h, f"step {k} ({op}) every circuit alive", x, **(kw if x is not c else (results[0][1] if results and results[0][0] is c else kw)))
         for i, r in enumerate(reads):
             if r is c:
                 h.check(f"step {k} ({op}) leaves the circuit it reads unchanged", observable(h, c) == snap_c)
